@@ -168,6 +168,21 @@ def run(pid, spec, tier, seed):
         par = 4 if tier == "thorough" else 3
         # one target dir per parallel lane (cargo-kani invocations must not share one concurrently)
         lanes = [os.path.join(vx.VERIF, "build", "kani-target-%s-%d" % (pid, k)) for k in range(par)]
+        # scratch runs of the seeded corpus check several source trees at the same time: a tree whose waker_list.rs differs
+        # from /repo's gets target directories of its own (removed below), so that no build artefact of one tree can ever be
+        # picked up by the run of another (observed once: a unit of the unchanged file reported the failure of a seeded one)
+        private_lanes = False
+        if os.environ.get("VERIF_NO_EVIDENCE"):
+            import hashlib
+            def _h(path):
+                try:
+                    return hashlib.sha256(open(path, "rb").read()).hexdigest()[:10]
+                except OSError:
+                    return "none"
+            mine, base = _h(os.path.join(vx.REPO, "src", "waker_list.rs")), _h("/repo/src/waker_list.rs")
+            if mine != base:
+                private_lanes = True
+                lanes = [l + "-" + mine for l in lanes]
         order = sorted(names, key=lambda h: HARNESSES[h][0])
         def work(k):
             out = []
@@ -208,3 +223,13 @@ def run(pid, spec, tier, seed):
         return res
     finally:
         shutil.rmtree(scratch, ignore_errors=True)
+        try:
+            if private_lanes:
+                for l in lanes:
+                    shutil.rmtree(l, ignore_errors=True)
+                    try:
+                        os.remove(l + ".lock")
+                    except OSError:
+                        pass
+        except NameError:
+            pass
